@@ -489,8 +489,13 @@ def specMulti (P : Params) (cfg : Cfg) (fs : List Fld) (init : Val) (srcs : List
     let phs := phasesOf fs srcs
     !srcs.isEmpty &&
     phs.all (fun ph => (nodesOf ph.src.kind fs).all (fun n => n.depth ≤ cfg.maxDepth)) &&
-    (phs.flatMap fun ph => (leavesOf ph.src.kind fs).map (fun l => (l.path, l.ty))).all fun pt =>
+    ((phs.flatMap fun ph => (leavesOf ph.src.kind fs).map (fun l => (l.path, l.ty))).all fun pt =>
       phs.any (fun ph => (leavesOf ph.src.kind fs).any (fun l => l.path == pt.1 && ambiguous ph.src (ph.leaf l))) ||
-      (phs.foldl (fun A ph => stepAdm P cfg fs pt.1 ph A) [valAt init pt.1]).any (matchesAdm pt.2 (valAt v pt.1))
+      (phs.foldl (fun A ph => stepAdm P cfg fs pt.1 ph A) [valAt init pt.1]).any (matchesAdm pt.2 (valAt v pt.1))) &&
+    -- a field that no participating source binds stays as it was
+    (match phs with
+     | [] => true
+     | ph0 :: rest => ((framesOf ph0.src.kind fs).filter fun f =>
+         rest.all fun ph => (framesOf ph.src.kind fs).any (fun f' => f'.path == f.path)).all (holdsFrame init v))
 
 end Rivaas.Bind.Spec
